@@ -23,16 +23,21 @@ PROPERTY = "C14"
 LEAN_TARGETS = ["Ipv8.C14.Props"]
 PROPS_FILE = "Ipv8/C14/Props.lean"
 DRIVER = "drv_c14"
-RULE = ("routing scenarios: own id + op sequence drawn from id classes {uniform, sharing a 0..159-bit prefix with the own id, "
-        "clustered around a foreign anchor, reduced width (top w bits free), re-added id, re-added node OBJECT (stored / removed / evicted / refused earlier)}, rtt in 0..8, failed in 0..3, "
-        "7 contact-time classes (recent or not, independent of failed); "
-        "distinct = distinct (own id, op list) digests; non-trivial = the scenario split at least one bucket and ran at "
-        "least one closest_nodes query over a table with more than k live nodes.  trie cases: one per (trie contents, "
-        "query/deletion); exhaustive part enumerates every subset of the keys of length <= L")
+RULE = ("evaluations = executed ops (routing), queries/deletions (trie), draws (generate_id), grid cells (Node.status). "
+        "distinct_nontrivial is the number of distinct keys over these families, each with its own criterion (per-family counts: "
+        "distribution keys nontrivial-cases:<family>): routing-scenario = digest of (own id, capacity, op list), non-trivial iff it "
+        "split a bucket and ran a closest_nodes query over a table with more than k live nodes; ss = one exhaustive small-scope "
+        "add sequence, non-trivial iff it split; trie / trie-ex / trie-ex-del = one trie sequence / key set / deletion, non-trivial "
+        "iff more than one key is present (deletion: the key was present); genid / genid-scripted = one bucket depth x seed or "
+        "scripted draw, non-trivial iff the bucket is below the root; status = one (failed, contact class) cell, non-trivial iff "
+        "failed >= 2 with recent contact; regression = fixed scenarios.  Generator classes and their measured frequencies: "
+        "distribution keys id:*, profile:*, max-depth:*, capacity:*, rtt:*, node:*, readd:*, closest-*, evicted:*, op:*, trie-op:*")
 TRUSTED_BASE = [
     "tools/gen_c14.py: AST extraction of the routing constants and comparison operators",
     "hand-written model of Trie / Bucket / RoutingTable (Ipv8/C14/Model.lean), tied by the correspondence run; python dict "
-    "insertion order of trie children is not modelled (values()/suffixes() are compared as sorted collections)",
+    "insertion order of trie children is not modelled (values()/suffixes() are compared as sorted collections); object identity "
+    "and the write-only back pointer Node.bucket are not modelled (re-adds of earlier objects are ordinary adds in the model)",
+    "the clock (routing.time) is replaced by a fixed virtual time and the global random source is seeded / scripted by the harness",
     "Node.id is scripted by the harness (arbitrary 160-bit strings); Node.status is the real property, driven through failed / "
     "last_response / last_queries; the oracle's own notion of a dead node is failed >= 2 (BEP-5: failed multiple queries in a row), "
     "independent of Node.status; calc_node_id (crc32/sha1) is outside the model",
@@ -40,7 +45,9 @@ TRUSTED_BASE = [
 ASSUMPTIONS = [
     "identifiers added to one table all have the table's width (160 bits in the code)",
     "bucket capacity >= 1",
-        "rtt values are small non-negative integers in the correspondence run (the model compares n.rtt >= R * node.rtt exactly)",
+        "rtts are multiples of 1/1024 s (floats, mostly sub-second) for which n.rtt / node.rtt >= 2.0 is exact; other floats are not exercised",
+    "the random source honours its contract (getrandbits(n) < 2^n) - explicit hypothesis of generated_id_in_bucket",
+    "a node is dead iff it failed 2 or more queries in a row (pinned: code_constants_admissible and the oracle use the same 2)",
 ]
 
 W = 160
@@ -83,6 +90,13 @@ def node_cls():
     return _NODE_CLS
 
 
+def case(ctx: Ctx, key=None, nontrivial: bool = True, n: int = 1):
+    """ctx.case plus a per-family histogram of what `distinct_nontrivial` is made of (see RULE)"""
+    ctx.case(key, nontrivial, n)
+    fam = key[0] if isinstance(key, tuple) and key and isinstance(key[0], str) else "routing-scenario"
+    ctx.count(("nontrivial-cases:" if nontrivial else "trivial-cases:") + fam)
+
+
 def bits(x: int, n: int = W) -> str:
     return format(x, "0%db" % n) if n else ""
 
@@ -97,23 +111,101 @@ class FakeRandom:
     def __init__(self, r: int):
         self.r = r
         self.calls = []
+        self.returned = []
+
+    def _ret(self, v):
+        self.returned.append(v)
+        return v
 
     def getrandbits(self, n):
         self.calls.append(("getrandbits", n))
-        return self.r % (1 << n) if n > 0 else 0
+        return self._ret(self.r % (1 << n) if n > 0 else 0)
 
     def randint(self, a, b):
         self.calls.append(("randint", a, b))
-        return a + self.r % (b - a + 1)
+        return self._ret(a + self.r % (b - a + 1))
 
     def randrange(self, a, b=None):
         self.calls.append(("randrange", a, b))
         if b is None:
             a, b = 0, a
-        return a + self.r % (b - a)
+        return self._ret(a + self.r % (b - a))
+
+    def randbytes(self, n):
+        self.calls.append(("randbytes", n))
+        v = self.r % (1 << (8 * n)) if n > 0 else 0
+        self.returned.append(v)
+        return v.to_bytes(n, "big")
 
     def random(self):
         return 0.5
+
+
+VNOW = 2_000_000_000.0   # virtual "now": Node.status reads the clock through routing.time, which the harness replaces
+
+
+class _VTime:
+    """stands in for the `time` module inside routing.py: a fixed clock, everything else delegated"""
+
+    def __init__(self, real):
+        self._real = real
+
+    def time(self):
+        return VNOW
+
+    def __getattr__(self, name):
+        return getattr(self._real, name)
+
+
+def install_clock(routing):
+    """idempotent; covers `import time` and `from time import time` in routing.py"""
+    t = getattr(routing, "time", None)
+    if isinstance(t, _VTime) or getattr(t, "_c14_virtual", False):
+        return
+    if callable(t) and not hasattr(t, "time"):
+        def vtime():
+            return VNOW
+        vtime._c14_virtual = True
+        routing.time = vtime
+    elif t is not None:
+        routing.time = _VTime(t)
+
+
+def now(routing):
+    t = routing.time
+    return t() if callable(t) and not hasattr(t, "time") else t.time()
+
+
+class scripted_random:
+    """context manager: every name through which routing.py could reach the global random source answers from `fake`
+    (`import random` as well as `from random import getrandbits/randint/randrange/randbytes`)"""
+    NAMES = ("getrandbits", "randint", "randrange", "randbytes")
+
+    def __init__(self, routing, fake):
+        self.routing, self.fake, self.saved = routing, fake, {}
+
+    def __enter__(self):
+        import types
+        r = self.routing
+        if isinstance(getattr(r, "random", None), types.ModuleType) or isinstance(getattr(r, "random", None), FakeRandom):
+            self.saved["random"] = r.random
+            r.random = self.fake
+        for nm in self.NAMES:
+            if nm in vars(r):
+                self.saved[nm] = vars(r)[nm]
+                setattr(r, nm, getattr(self.fake, nm))
+        return self.fake
+
+    def __exit__(self, *a):
+        for nm, v in self.saved.items():
+            setattr(self.routing, nm, v)
+        return False
+
+
+def seed_real_random(seed: int):
+    """the code draws from python's global generator (module `random`), however it imported it"""
+    import random as _r
+    _r.seed(seed)
 
 
 DEAD_AFTER = 2   # "nodes become bad when they fail to respond to multiple queries in a row" (BEP-5, cited by Node.status):
@@ -133,12 +225,12 @@ def is_recent(c) -> bool:
 
 
 def script_contact(routing, n, c):
-    now = routing.time.time()
+    t = now(routing)
     resp, query = CONTACT[contact_code(c)]
-    n.last_response = 0 if resp is None else now - resp
+    n.last_response = 0 if resp is None else t - resp
     n.last_queries.clear()
     if query is not None:
-        n.last_queries.append(now - query)
+        n.last_queries.append(t - query)
     n.v_recent = is_recent(c)
 
 
@@ -148,17 +240,20 @@ class Impl:
     def __init__(self, me: int, m: int | None):
         from ipv8.dht import routing
         self.routing = routing
+        install_clock(routing)
         self.me = me
         self.ntag = 0
         self.fail = None        # first oracle failure: (signature, what)
+        import collections
+        self.stats = collections.Counter()
+        # the CONFIGURED capacity (what the oracle compares with; never read back from the buckets under test)
+        self.m = m if m is not None else routing.MAX_BUCKET_SIZE
         try:
             self.rt = routing.RoutingTable(me.to_bytes(W // 8, "big"))
             if m is not None:
                 self.rt.trie[""].max_size = m
-            self.m = self.rt.trie[""].max_size
         except Exception as e:
             self.rt = None
-            self.m = m or 8
             self.fail = ("RoutingTable.__init__:raises", f"constructing the table raised {type(e).__name__}: {str(e)[:120]}")
         self.splits = 0
         self.rich_query = False
@@ -174,13 +269,16 @@ class Impl:
         out = []
         if self.rt is None:
             return out
-        stack = [("", self.rt.trie.root)]
-        while stack:
-            k, n = stack.pop()
-            if n.value is not None:
-                out.append((k, n.value))
-            for c, ch in n.children.items():
-                stack.append((k + c, ch))
+        try:
+            stack = [("", self.rt.trie.root)]
+            while stack:
+                k, n = stack.pop()
+                if n.value is not None:
+                    out.append((k, n.value))
+                for c, ch in n.children.items():
+                    stack.append((k + c, ch))
+        except AttributeError:   # another internal layout: use the public queries instead
+            out = [(k, self.rt.trie[k]) for k in self.rt.trie.suffixes("")]
         return sorted(out, key=lambda kv: kv[0])
 
     def all_nodes(self):
@@ -209,8 +307,9 @@ class Impl:
         for k, b in kb:
             if b.prefix_id != k:
                 return self._fail("RoutingTable.trie:bucket-key-mismatch", f"{where}: bucket with prefix {b.prefix_id!r} stored at key {k!r}")
-            if len(b.nodes) > b.max_size:
-                return self._fail("Bucket.add:over-capacity", f"{where}: bucket {k!r} holds {len(b.nodes)} nodes, capacity {b.max_size}")
+            if len(b.nodes) > self.m:
+                return self._fail("Bucket.add:over-capacity", f"{where}: bucket {k!r} holds {len(b.nodes)} nodes, the table was "
+                                                               f"configured with capacity {self.m} (the bucket itself claims {getattr(b, 'max_size', '?')})")
             if k and not me_bits.startswith(k[:-1]):
                 return self._fail("RoutingTable.add:split-off-own-path", f"{where}: bucket {k!r} exists although {k[:-1]!r} is not a prefix of the own id")
             for nid, n in b.nodes.items():
@@ -221,9 +320,6 @@ class Impl:
                     return self._fail("Bucket.add:node-outside-owner", f"{where}: node {ib[:24]}.. stored in bucket {k!r}")
                 if rt.get_bucket(n.id) is not b or rt.get(n.id) is not n:
                     return self._fail("RoutingTable.get_bucket:node-not-found", f"{where}: stored node {ib[:24]}.. is not found by get_bucket/get")
-                if n.bucket is not b:
-                    return self._fail("Bucket.add:stale-bucket-pointer", f"{where}: node {ib[:24]}.. is stored in bucket {k!r} but node.bucket is "
-                                                                          f"{getattr(n.bucket, 'prefix_id', None)!r}")
                 if n.id in seen:
                     return self._fail("RoutingTable.trie:duplicate-id", f"{where}: id {ib[:24]}.. stored twice")
                 seen[n.id] = n
@@ -240,6 +336,11 @@ class Impl:
             "dump": "RoutingTable.trie", "genid": "Bucket.generate_id", "readd": "RoutingTable.add",
             "status": "Node.status"}
 
+    def _bucket_reply(self, ident: int) -> str:
+        b = self.rt.get_bucket(ident.to_bytes(W // 8, "big"))
+        key = [k for k, v in self.keys() if v is b]
+        return f"{pb(key[0]) if key else '?'} {pb(b.prefix_id)}"
+
     def fallback_line(self, op):
         """the protocol line of an op computed without touching the code under test"""
         kind = op[0]
@@ -252,7 +353,7 @@ class Impl:
         if kind == "status":
             return f"rt.status {bits(op[1])}"
         if kind == "closest":
-            return f"rt.closest {bits(op[1])} {op[2]} {bits(op[3]) if op[3] is not None else 'none'}"
+            return f"rt.closest {bits(op[1])} {'default' if op[2] is None else op[2]} {bits(op[3]) if op[3] is not None else 'none'}"
         if kind in ("get", "bucket"):
             return f"rt.{kind} {bits(op[1])}"
         if kind == "genid":
@@ -285,7 +386,7 @@ class Impl:
                 self.objs[n.tag] = n
                 self.ntag += 1
                 n.failed = failed
-                n.rtt = rtt
+                n.rtt = rtt / 1024.0
                 script_contact(self.routing, n, contact)
             else:
                 # the very same python object that was handed to add earlier (stored, evicted, removed or refused since);
@@ -300,11 +401,17 @@ class Impl:
                     if failed is not None:
                         n.failed = failed
                     if rtt is not None:
-                        n.rtt = rtt
+                        n.rtt = rtt / 1024.0
                     if contact is not None:
                         script_contact(self.routing, n, contact)
-                failed, rtt = n.failed, n.rtt
+                failed, rtt = n.failed, round(n.rtt * 1024)
             nkeys = len(self.keys())
+            tb = None
+            try:
+                tb = rt.get_bucket(n.id)
+                before = list(tb.nodes.values())
+            except Exception:
+                before = []
             try:
                 res = rt.add(n)
             except KeyError:
@@ -314,6 +421,13 @@ class Impl:
                 self._fail("RoutingTable.add:no-termination", f"op {idx}: add({bits(ident)[:24]}..) recursed without end")
                 res = "fuel"
             self.splits += max(0, len(self.keys()) - nkeys)
+            if tb is not None and len(self.keys()) == nkeys:
+                gone = [x for x in before if x.id not in tb.nodes]
+                if gone:
+                    self.stats["evicted:" + "+".join(sorted({"bad" if x.failed >= DEAD_AFTER else "slow" for x in gone}))
+                               + (",two-at-once" if len(gone) > 1 else "")] += 1
+                elif len(before) >= self.m and n.id not in {x.id for x in before}:
+                    self.stats["full-bucket:no-eviction"] += 1
             line = f"rt.add {bits(ident)} {failed} {1 if n.v_recent else 0} {rtt} {port} {n.tag}"
             if isinstance(res, str):
                 return line, res
@@ -333,7 +447,7 @@ class Impl:
             recent = is_recent(contact) if contact is not None else False
             if n is not None:
                 n.failed = failed
-                n.rtt = rtt
+                n.rtt = rtt / 1024.0
                 if contact is not None:
                     script_contact(self.routing, n, contact)
                 recent = n.v_recent
@@ -346,7 +460,7 @@ class Impl:
             st = n.status
             if (st == self.routing.NODE_STATUS_BAD) != (n.failed >= DEAD_AFTER):
                 self._fail("Node.status:failed-node-not-bad",
-                           f"op {idx}: stored node with failed={n.failed}, last response {self.routing.time.time() - n.last_response:.0f}s ago "
+                           f"op {idx}: stored node with failed={n.failed}, last response {now(self.routing) - n.last_response:.0f}s ago "
                            f"reports status {st} (BAD is {self.routing.NODE_STATUS_BAD})")
             return f"rt.status {bits(ident)}", str(st)
         if kind == "rmbad":
@@ -360,25 +474,46 @@ class Impl:
                            f"op {idx}: removed tags {got}; nodes with {DEAD_AFTER}+ failures in a row were {expect}; such nodes left: {[n.tag for n in left]}")
             return "rt.rmbad", "[" + ",".join(map(str, got)) + "]"
         if kind == "closest":
-            _, target, k, excl = op
+            _, target, k, excl = op[:4]
+            by_object = len(op) > 4 and op[4]
             exn = None
             exid = None
             if excl is not None:
-                exn = node_cls()(0, excl, 1)
+                stored = rt.get(excl.to_bytes(W // 8, "big"))
+                # what the community passes is the requester's own Node object when it is in the table
+                exn = stored if (by_object and stored is not None) else node_cls()(0, excl, 1)
                 exid = exn.id
-            res = rt.closest_nodes(target.to_bytes(W // 8, "big"), max_nodes=k, exclude_node=exn)
-            live, want = self.brute_closest(target, k, exid)
-            if len(live) > k and self.splits:
+            kwargs = {"exclude_node": exn}
+            if k is None:
+                import inspect
+                k_eff = inspect.signature(rt.closest_nodes).parameters["max_nodes"].default
+            else:
+                kwargs["max_nodes"] = k
+                k_eff = k
+            res = rt.closest_nodes(target.to_bytes(W // 8, "big"), **kwargs)
+            live, want = self.brute_closest(target, k_eff, exid)
+            if len(live) > k_eff and self.splits:
                 self.rich_query = True
+            own = rt.get_bucket(target.to_bytes(W // 8, "big"))
+            n_own = len([x for x in own.nodes.values() if x.failed < DEAD_AFTER and x.id != exid])
+            self.stats["closest-walk:" + ("whole-table-needed" if len(live) <= k_eff else
+                                          "own-bucket-suffices" if n_own > k_eff else "stops-at-an-inner-level")] += 1
+            self.stats["closest-result:" + ("k" if len(want) == k_eff else "fewer-than-k")] += 1
             if len(res) != len(want) or any(a is not b for a, b in zip(res, want)):
                 self._fail("RoutingTable.closest_nodes:not-k-closest",
-                           f"op {idx}: closest_nodes(target={bits(target)[:24]}.., k={k}) returned tags {[n.tag for n in res]}, "
-                           f"the k live nodes nearest by XOR are {[n.tag for n in want]} (of {len(live)} live)")
-            return (f"rt.closest {bits(target)} {k} {bits(excl) if excl is not None else 'none'}",
+                           f"op {idx}: closest_nodes(target={bits(target)[:24]}.., k={k_eff}{' (default)' if k is None else ''}) returned tags "
+                           f"{[n.tag for n in res]}, the k live nodes nearest by XOR are {[n.tag for n in want]} (of {len(live)} live)")
+            return (f"rt.closest {bits(target)} {'default' if k is None else k} {bits(excl) if excl is not None else 'none'}",
                     "[" + ",".join(str(n.tag) for n in res) + "]")
         if kind == "get":
             _, ident = op
             n = rt.get(ident.to_bytes(W // 8, "big"))
+            if rt.has(ident.to_bytes(W // 8, "big")) != (n is not None):
+                self._fail("RoutingTable.has:disagrees-with-get", f"op {idx}: has() and get() disagree on id {bits(ident)[:24]}..")
+            stored = [x for x in self.all_nodes() if int.from_bytes(x.id, "big") == ident]
+            if (n is None) != (not stored) or (n is not None and n is not stored[0]):
+                self._fail("RoutingTable.get:disagrees-with-membership", f"op {idx}: get({bits(ident)[:24]}..) answers "
+                           f"{'nothing' if n is None else 'tag %d' % n.tag} but the buckets hold {[x.tag for x in stored]}")
             return f"rt.get {bits(ident)}", "none" if n is None else str(n.tag)
         if kind == "bucket":
             _, ident = op
@@ -397,14 +532,15 @@ class Impl:
             items = []
             BAD = self.routing.NODE_STATUS_BAD
             for k, b in self.keys():
-                ns = ",".join(f"{n.tag}.{n.address[1]}.{1 if n.status == BAD else 0}.{n.rtt}" for n in b.nodes.values())
-                items.append(f"{pb(k)}:{pb(b.prefix_id)}={ns}")
+                ns = ",".join(f"{n.tag}.{n.address[1]}.{1 if n.status == BAD else 0}.{round(n.rtt * 1024)}" for n in b.nodes.values())
+                items.append(f"{pb(k)}:{pb(b.prefix_id)}/{b.max_size}={ns}")
             return "rt.dump", "|".join(sorted(items))
         if kind == "genid":
             _, which, r = op
             kb = self.keys()
             k, b = kb[which % len(kb)]
-            # oracle: the real random source
+            # oracle: the real random source, seeded from the op so that a replay draws the same values
+            seed_real_random(r)
             for _ in range(4):
                 try:
                     g = b.generate_id()
@@ -416,20 +552,29 @@ class Impl:
                     self._fail("Bucket.generate_id:outside-bucket",
                                f"op {idx}: bucket {k!r} generated id {g.hex()} which does not start with its prefix")
                     break
-            # correspondence: scripted random source
-            fake = FakeRandom(r)
-            saved = self.routing.random
-            self.routing.random = fake
-            try:
-                g = b.generate_id()
-                rep = bits(int.from_bytes(g, "big"), 8 * len(g)) if g else "-"
-            except Exception as e:
-                self._fail("Bucket.generate_id:raises", f"op {idx}: bucket {k!r}, draw {r}: generate_id raised {type(e).__name__}: {e}")
-                rep = "raised:" + type(e).__name__
-            finally:
-                self.routing.random = saved
-            return f"rt.genid {pb(k)} {W} {r}", rep
+            # correspondence: scripted random source; the model is given the value the source actually returned
+            line, rep = scripted_genid(self.routing, b, k, r)
+            if rep.startswith("raised"):
+                self._fail("Bucket.generate_id:raises", f"op {idx}: bucket {k!r}, scripted draw {r}: generate_id {rep}")
+            return (line or f"rt.bucket {bits(self.me)}"), (rep if line else self._bucket_reply(self.me))
         raise ValueError(kind)
+
+
+def scripted_genid(routing, b, key: str, r: int):
+    """generate_id with every global-random entry point answered from `r`.  Returns (model line or None, reply): the line
+    carries the value the source RETURNED (the model's generateId takes that as its input); None when the code reached
+    no scripted entry point (another randomness source: nothing to compare, the real-random oracle still applies)"""
+    fake = FakeRandom(r)
+    try:
+        with scripted_random(routing, fake):
+            g = b.generate_id()
+        rep = bits(int.from_bytes(g, "big"), 8 * len(g)) if g else "-"
+    except Exception as e:
+        rep = "raised"
+        fake.error = f"{type(e).__name__}: {e}"
+    if len(fake.returned) != 1:
+        return None, rep
+    return f"rt.genid {pb(key)} {W} {fake.returned[0]}", rep
 
 
 def readd_after_split_ops():
@@ -491,6 +636,9 @@ def gen_id(rng, me: int, state: dict) -> tuple[int, str]:
     return rng.getrandbits(W), "uniform"
 
 
+RTTS = [0, 0, 1, 2, 3, 4, 13, 26, 51, 52, 102, 103, 204, 205, 410, 512, 819, 1024, 2048, 2049, 3000, 8192]   # units of 1/1024 s: mostly sub-second floats, exact ratios 2 (and just below/above) included
+
+
 def gen_scenario(ctx: Ctx, rng, n_ops: int, profile: str):
     """ops are generated online against the running implementation (so that they can refer to stored ids)"""
     me = rng.getrandbits(W) if rng.random() < 0.8 else rng.choice([0, (1 << W) - 1, 1 << (W - 1), 0b1010 << (W - 4)])
@@ -527,16 +675,17 @@ def gen_scenario(ctx: Ctx, rng, n_ops: int, profile: str):
             obj = im.objs[tag]
             live_buckets = {id(b) for _, b in im.keys()}
             ctx.count("readd:" + ("object-currently-stored" if tag in stored_tags else
-                                  "object-never-stored" if obj.bucket is None else
+                                  "object-never-stored" if getattr(obj, "bucket", None) is None else
                                   "object-removed,old-bucket-still-in-tree" if id(obj.bucket) in live_buckets else
                                   "object-removed,old-bucket-was-split"))
-            do(("readd", tag, rng.choice([None, 0, 0, 1, 2]), rng.choice([None, None, 0, 1, 3, 8]), rng.choice([None] + contacts)))
+            do(("readd", tag, rng.choice([None, 0, 0, 1, 2]), rng.choice([None, None] + RTTS), rng.choice([None] + contacts)))
             ctx.count("readd-result:" + replies[-1].split(" ")[0])
         elif x < 0.68:
             ident, cls = gen_id(rng, me, state)
             ctx.count("id:" + cls)
             failed = rng.choice([0, 0, 0, 0, 1, 2, 3])
-            rtt = rng.choice([0, 0, 1, 1, 2, 3, 4, 6, 8])
+            rtt = rng.choice(RTTS)
+            ctx.count("rtt:" + ("zero" if rtt == 0 else "sub-second" if rtt < 1024 else "one-second-or-more"))
             same_key = None
             if rng.random() < 0.04:
                 stored = im.all_nodes()
@@ -552,19 +701,22 @@ def gen_scenario(ctx: Ctx, rng, n_ops: int, profile: str):
             if replies[-1].startswith("stored") and len(state["ids"]) < 4000:
                 state["ids"].append(ident)
         elif x < 0.78 and state["ids"]:
-            do(("set", rng.choice(state["ids"]), rng.choice([0, 1, 2, 3]), rng.choice([0, 1, 2, 4, 5, 8, 16]),
+            do(("set", rng.choice(state["ids"]), rng.choice([0, 1, 2, 3]), rng.choice(RTTS),
                 rng.choice([None, None] + contacts)))
         elif x < 0.80:
             do(("rmbad",))
         elif x < q_closest:
             t, cls = gen_id(rng, me, state)
-            k = rng.randrange(1, 21)
+            k = rng.randrange(1, 21) if rng.random() < 0.93 else None
             excl = None
+            by_object = False
             if rng.random() < 0.3 and state["ids"]:
                 excl = rng.choice(state["ids"]) if rng.random() < 0.8 else rng.getrandbits(W)
-            do(("closest", t, k, excl))
+                by_object = rng.random() < 0.5
+                ctx.count("closest-exclude:" + ("stored-object-itself" if by_object else "fresh-object-with-that-id"))
+            do(("closest", t, k, excl, by_object))
             ctx.count("closest-target:" + cls)
-            ctx.count("closest-k:%d" % k)
+            ctx.count("closest-k:%s" % ("default" if k is None else k))
             ctx.count("closest-returned:%d" % (replies[-1].count(",") + 1 if replies[-1] != "[]" else 0))
         elif x < 0.94:
             ident, _ = gen_id(rng, me, state)
@@ -662,6 +814,8 @@ def routing_scenarios(ctx: Ctx, n: int, sizes, use_model=True):
             break
         profile = rng.choice(["mixed", "mixed", "mixed", "clustered", "clustered", "clustered", "narrow", "foreign",
                               "uniform", "deep"])
+        if s < 2 and n > 4:
+            profile = ("deep", "clustered")[s]      # depth coverage must not depend on the seed
         n_ops = min(rng.choice(sizes), 250) if profile == "deep" else rng.choice(sizes)
         im, me, m, ops, lines, replies = gen_scenario(ctx, rng, n_ops, profile)
         ctx.count("profile:" + profile)
@@ -671,10 +825,12 @@ def routing_scenarios(ctx: Ctx, n: int, sizes, use_model=True):
         nn = len(im.all_nodes())
         ctx.count("final-nodes:%s" % ("%d0+" % (nn // 10)))
         ctx.count("capacity:%d" % im.m)
+        for kk, vv in im.stats.items():
+            ctx.count(kk, vv)
         depth = max((len(k) for k, _ in im.keys()), default=0)
         ctx.count("max-depth:%s" % ("%d0+" % (depth // 10)))
         key = hashlib.sha1(repr((me, m, ops)).encode()).hexdigest()
-        ctx.case(key, nontrivial=bool(im.splits and im.rich_query), n=len(ops))
+        case(ctx, key, nontrivial=bool(im.splits and im.rich_query), n=len(ops))
         if s < 2:
             ctx.sample({"own_id": bits(me)[:32] + "..", "profile": profile, "ops": len(ops), "buckets": nb, "nodes": nn,
                         "first_lines": [ln[:80] for ln in lines[:3]], "first_replies": [r[:80] for r in replies[:3]]})
@@ -693,12 +849,12 @@ def small_scope(ctx: Ctx, w: int, length: int, m: int, mes, use_model=True):
         for seq in itertools.product(range(len(ids)), repeat=length):
             ops = []
             for j, a in enumerate(seq):
-                ops.append(("add", ids[a], 2 if (j + a) % 5 == 4 else 0, (a * 3 + j) % 4, 1 + j, (1, 3, 0)[(a + j) % 3]))
+                ops.append(("add", ids[a], 2 if (j + a) % 5 == 4 else 0, (0, 100, 200, 400)[(a * 3 + j) % 4], 1 + j, (1, 3, 0)[(a + j) % 3]))
             ops.append(("dump",))
             for t in (ids[seq[0]], ids[-1 - seq[-1]]):
                 ops.append(("closest", t, 1 + (seq[0] % 3), None))
             im, lines, replies = run_ops(me, m, ops)
-            ctx.case(("ss", w, m, me, seq), nontrivial=im.splits > 0, n=len(ops))
+            case(ctx, ("ss", w, m, me, seq), nontrivial=im.splits > 0, n=len(ops))
             ctx.count("smallscope-splits:%d" % im.splits)
             if im.fail is not None:
                 report_failure(ctx, im, me, m, ops)
@@ -716,7 +872,17 @@ def small_scope(ctx: Ctx, w: int, length: int, m: int, mes, use_model=True):
 
 
 # ---- the bare Trie class -----------------------------------------------------------------------------------------
-TRIE_SITE = {"set": "Trie.__setitem__", "del": "Trie.__delitem__", "get": "Trie.__getitem__",
+def same_reply(a: str, b: str, deleted_present: bool) -> bool:
+    """model vs implementation reply.  Deleting a key that is present: the code (and the model, which mirrors it) ends in a
+    KeyError when the trie becomes empty although the deletion was carried out; whether that quirk is kept or repaired is
+    not something this check judges, so "ok" and "keyerror" count as the same answer there."""
+    if deleted_present and {a, b} <= {"ok", "keyerror"}:
+        return True
+    return a == b
+
+
+TRIE_SITE = {"lpi!": "Trie.longest_prefix_item", "lp": "Trie.longest_prefix", "lpv": "Trie.longest_prefix_value",
+             "set": "Trie.__setitem__", "del": "Trie.__delitem__", "get": "Trie.__getitem__",
              "lpi": "Trie.longest_prefix_item", "suf": "Trie.suffixes", "vals": "Trie.values"}
 
 
@@ -754,6 +920,18 @@ def trie_apply(t, op):
     if kind == "lpi":
         r = t.longest_prefix_item(op[1], default=None)
         return f"t.lpi {pb(op[1])}", "none" if r is None else f"{pb(r[0])} {r[1]}"
+    if kind == "lpi!":      # no default: KeyError when nothing matches
+        try:
+            r = t.longest_prefix_item(op[1])
+            return f"t.lpi {pb(op[1])}", f"{pb(r[0])} {r[1]}"
+        except KeyError:
+            return f"t.lpi {pb(op[1])}", "none"
+    if kind == "lp":
+        r = t.longest_prefix(op[1], default="")
+        return f"t.lp {pb(op[1])}", r if r else "none"
+    if kind == "lpv":
+        r = t.longest_prefix_value(op[1], default=None)
+        return f"t.lpv {pb(op[1])}", "none" if r is None else str(r)
     if kind == "suf":
         return f"t.suf {pb(op[1])}", "[" + ",".join(sorted(pb(s) for s in t.suffixes(op[1]))) + "]"
     if kind == "vals":
@@ -778,7 +956,7 @@ def _trie_oracle(ctx: Ctx, t, ref: dict, where, replay):
             ctx.oracle_fail("Trie.__getitem__:missing-key", f"{where}: key {k!r} was set and not deleted but is missing", replay)
     if sorted(t.values()) != sorted(ref.values()):
         ctx.oracle_fail("Trie.values:wrong", f"{where}: values() {sorted(t.values())} != {sorted(ref.values())}", replay)
-    for q in {k[:i] for k in list(ref) + ["0101", "111"] for i in range(len(k) + 1)}:
+    for q in sorted({k[:i] for k in list(ref) + ["0101", "111"] for i in range(len(k) + 1)}):
         want = sorted(k[len(q):] for k in ref if k.startswith(q))
         got = sorted(t.suffixes(q))
         if got != want:
@@ -790,6 +968,7 @@ def trie_random(ctx: Ctx, n_seq: int, use_model=True):
     from ipv8.dht.trie import Trie
     rng = ctx.rng
     lines, replies = [], []
+    present_del = set()
     for s in range(n_seq):
         L = rng.choice([2, 3, 4, 5, 6])
         t = Trie("01")
@@ -813,7 +992,7 @@ def trie_random(ctx: Ctx, n_seq: int, use_model=True):
             elif x < 0.7:
                 op = ("get", key)
             elif x < 0.85:
-                op = ("lpi", key + bits(rng.getrandbits(3), 3))
+                op = (rng.choice(["lpi", "lpi", "lpi!", "lp", "lpv"]), key + bits(rng.getrandbits(3), 3))
             elif x < 0.95:
                 op = ("suf", key[:rng.randrange(0, len(key) + 1)])
             else:
@@ -822,18 +1001,19 @@ def trie_random(ctx: Ctx, n_seq: int, use_model=True):
             ln, rep = trie_do(ctx, t, op, ops[:-1])
             if op[0] == "del" and key in ref:
                 del ref[key]
-                # known quirk, mirrored by the model: deleting the last key raises KeyError after the deletion
+                present_del.add(len(lines))
+                # quirk, mirrored by the model but not judged: deleting the last key raises KeyError after the deletion
             ctx.count("trie-op:" + op[0] + (":keyerror" if rep == "keyerror" else ""))
             lines.append(ln)
             replies.append(rep)
             if op[0] in ("set", "del"):
                 trie_oracle(ctx, t, ref, f"trie sequence {s} op {i}", {"kind": "trie", "ops": [list(o) for o in ops]})
-        ctx.case(("trie", tuple(ops)), nontrivial=len(ref) > 1, n=len(ops))
+        case(ctx, ("trie", tuple(ops)), nontrivial=len(ref) > 1, n=len(ops))
     if use_model and ctx.model_ok:
         d = ctx.driver()
         model = d.batch(lines)
         for i, (ln, a, b) in enumerate(zip(lines, model, replies)):
-            if a != b:
+            if not same_reply(a, b, i in present_del):
                 j = max(k for k in range(i + 1) if lines[k] == "t.new")
                 ctx.disagree(f"trie: `{ln}`: model {a!r} != implementation {b!r}",
                              {"kind": "trie-lines", "lines": lines[j:i + 1], "model": a, "impl": b})
@@ -846,6 +1026,7 @@ def trie_exhaustive(ctx: Ctx, L: int, use_model=True):
     keys = [""] + [bits(v, n) for n in range(1, L + 1) for v in range(1 << n)]
     full = [bits(v, L + 1) for v in range(1 << (L + 1))]
     lines, replies = [], []
+    present_del = set()
     for mask in range(1 << len(keys)):
         present = [k for i, k in enumerate(keys) if mask >> i & 1]
         order = present if mask % 2 else list(reversed(present))
@@ -876,12 +1057,14 @@ def trie_exhaustive(ctx: Ctx, L: int, use_model=True):
             ln, rep = trie_do(ctx, t, ("suf", k), [("set", a, ref[a]) for a in order])
             lines.append(ln)
             replies.append(rep)
-        ctx.case(("trie-ex", L, mask), nontrivial=len(present) > 1, n=len(full) + len(keys))
+        case(ctx, ("trie-ex", L, mask), nontrivial=len(present) > 1, n=len(full) + len(keys))
         # single deletions (rebuild each time)
         if len(present) <= 4 or mask % 7 == 0:
             for k in keys:
                 t2 = build()
                 ln, rep = trie_do(ctx, t2, ("del", k), [("set", a, ref[a]) for a in order])
+                if k in ref:
+                    present_del.add(len(lines))
                 lines.append(ln)
                 replies.append(rep)
                 ref2 = {a: b for a, b in ref.items() if a != k}
@@ -891,13 +1074,13 @@ def trie_exhaustive(ctx: Ctx, L: int, use_model=True):
                     ln, rep = trie_do(ctx, t2, op, [("set", a, ref[a]) for a in order] + [("del", k)])
                     lines.append(ln)
                     replies.append(rep)
-                ctx.case(("trie-ex-del", L, mask, k), nontrivial=k in ref, n=4)
+                case(ctx, ("trie-ex-del", L, mask, k), nontrivial=k in ref, n=4)
     ctx.count(f"trie-exhaustive-L{L}-tries", 1 << len(keys))
     if use_model and ctx.model_ok:
         d = ctx.driver()
         model = d.batch(lines)
         for i, (ln, a, b) in enumerate(zip(lines, model, replies)):
-            if a != b:
+            if not same_reply(a, b, i in present_del):
                 j = max(k for k in range(i + 1) if lines[k] == "t.new")
                 ctx.disagree(f"trie exhaustive L={L}: `{ln}`: model {a!r} != implementation {b!r}",
                              {"kind": "trie-lines", "lines": lines[j:i + 1], "model": a, "impl": b})
@@ -915,7 +1098,7 @@ def known_regressions(ctx: Ctx, use_model=True):
     """fixed scenarios that once failed (kept small; always run first)"""
     ops = readd_after_split_ops()
     im, lines, replies = run_ops(0, None, ops)
-    ctx.case(("regression", "readd"), nontrivial=True, n=len(ops))
+    case(ctx, ("regression", "readd"), nontrivial=True, n=len(ops))
     if im.fail is not None:
         report_failure(ctx, im, 0, None, ops)
     if use_model:
@@ -926,7 +1109,7 @@ def known_regressions(ctx: Ctx, use_model=True):
     ops += [("genid", j, r) for j in range(6) for r in (0, 1, (1 << 160) - 1, 1 << 157, 12345678901234567890)]
     ops.append(("dump",))
     im, lines, replies = run_ops(me, None, ops)
-    ctx.case(("regression", "genid"), nontrivial=True, n=len(ops))
+    case(ctx, ("regression", "genid"), nontrivial=True, n=len(ops))
     if im.fail is not None:
         report_failure(ctx, im, me, None, ops)
     if use_model:
@@ -951,29 +1134,25 @@ def genid_sweep(ctx: Ctx, use_model=True, factor=4):
         if bad is not None:
             ctx.oracle_fail(bad[0], f"bucket with a {L}-bit prefix (suffix {W - L} bits), draw {bad[2]} of {draws} (random.seed({seed})): {bad[1]}",
                             replay)
-        ctx.case(("genid", L, seed), nontrivial=L > 0, n=draws)
+        case(ctx, ("genid", L, seed), nontrivial=L > 0, n=draws)
         n = W - L
         for r in [0, 1, (1 << n) - 1, 1 << n, (1 << n) + 1, rng.getrandbits(160), rng.getrandbits(max(1, n))]:
-            fake = FakeRandom(r)
-            saved = routing.random
-            routing.random = fake
-            try:
-                g = b.generate_id()
-                rep = bits(int.from_bytes(g, "big"), 8 * len(g)) if g else "-"
-                if len(g) != W // 8 or not rep.startswith(prefix):
-                    ctx.oracle_fail("Bucket.generate_id:outside-bucket",
-                                    f"bucket with prefix {prefix!r}: with the random source answering {fake.calls} -> {r} the id is {g.hex()}",
-                                    {"kind": "genid-scripted", "prefix": prefix, "r": r})
-            except Exception as e:
-                rep = "raised:" + type(e).__name__
+            line, rep = scripted_genid(routing, b, prefix, r)
+            if rep == "raised":
                 ctx.oracle_fail("Bucket.generate_id:raises",
-                                f"bucket with prefix {prefix!r}: with the random source answering {fake.calls} -> {r}: {type(e).__name__}: {e}",
+                                f"bucket with prefix {prefix[-24:]!r} ({L} bits): with every random entry point answering from {r}, generate_id raised",
                                 {"kind": "genid-scripted", "prefix": prefix, "r": r})
-            finally:
-                routing.random = saved
-            lines.append(f"rt.genid {pb(prefix)} {W} {r}")
+            elif len(rep) != W or not rep.startswith(prefix):
+                ctx.oracle_fail("Bucket.generate_id:outside-bucket",
+                                f"bucket with prefix {prefix[-24:]!r} ({L} bits): with every random entry point answering from {r} "
+                                f"(each within its documented range) the id is {rep}",
+                                {"kind": "genid-scripted", "prefix": prefix, "r": r})
+            if line is None:
+                ctx.count("genid-scripted:source-not-scriptable")
+                continue
+            lines.append(line)
             replies.append(rep)
-            ctx.case(("genid-scripted", L, r), nontrivial=True)
+            case(ctx, ("genid-scripted", L, r), nontrivial=L > 0)
     if use_model and ctx.model_ok:
         d = ctx.driver()
         model = d.batch(lines)
@@ -986,7 +1165,7 @@ def genid_sweep(ctx: Ctx, use_model=True, factor=4):
 
 def genid_draws(routing, b, prefix, draws, seed):
     """real random source, seeded; returns (signature, what, draw index) for the first bad draw, else None"""
-    routing.random.seed(seed)
+    seed_real_random(seed)
     for i in range(draws):
         try:
             g = b.generate_id()
@@ -1001,6 +1180,7 @@ def status_grid(ctx: Ctx, use_model=True):
     """Node.status for every failure count 0..4 x every contact class, against the model and against the harness' own
     reading of "live": a node that failed DEAD_AFTER queries in a row is BAD whatever its last contact was"""
     from ipv8.dht import routing
+    install_clock(routing)
     lines, replies = [], []
     for failed in range(5):
         for c in CONTACT:
@@ -1020,7 +1200,7 @@ def status_grid(ctx: Ctx, use_model=True):
                                 {"kind": "status", "failed": failed, "contact": c})
             lines.append(f"node.status {failed} {1 if is_recent(c) else 0}")
             replies.append(str(st))
-            ctx.case(("status", failed, c), nontrivial=failed >= DEAD_AFTER and is_recent(c))
+            case(ctx, ("status", failed, c), nontrivial=failed >= DEAD_AFTER and is_recent(c))
             ctx.count("status-grid:%s" % st)
     if use_model and ctx.model_ok:
         model = ctx.driver().batch(lines)
@@ -1075,10 +1255,11 @@ def replay(ctx: Ctx, rec: dict):
             ctx.oracle_fail(im.fail[0], im.fail[1], r)
         else:
             print("replay: property holds on this input")
-        ctx.case(("replay",), True)
+        case(ctx, ("replay",), True)
         compare(ctx, lines, replies, {"kind": "routing", "me": r["me"], "m": r.get("m")})
     elif r.get("kind") == "status":
         from ipv8.dht import routing
+        install_clock(routing)
         n = node_cls()(0, 0, 1)
         n.failed = r["failed"]
         script_contact(routing, n, r["contact"])
@@ -1087,30 +1268,23 @@ def replay(ctx: Ctx, rec: dict):
         print(f"replay: node failed={r['failed']} contact ages={CONTACT[contact_code(r['contact'])]} -> status {st}; property {'holds' if ok else 'FAILS'}")
         if not ok:
             ctx.oracle_fail("Node.status:failed-node-not-bad", "replayed input still fails", r)
-        ctx.case(("replay",), True)
+        case(ctx, ("replay",), True)
     elif r.get("kind") in ("genid", "genid-scripted"):
         from ipv8.dht import routing
         b = routing.Bucket(r["prefix"])
         if r["kind"] == "genid":
             bad = genid_draws(routing, b, r["prefix"], r["draws"], r["random_seed"])
         else:
-            fake = FakeRandom(r["r"])
-            saved = routing.random
-            routing.random = fake
-            try:
-                g = b.generate_id()
-                ok = len(g) == W // 8 and bits(int.from_bytes(g, "big")).startswith(r["prefix"])
-                bad = None if ok else ("Bucket.generate_id:outside-bucket", f"id {g.hex()}", 0)
-            except Exception as e:
-                bad = ("Bucket.generate_id:raises", f"{type(e).__name__}: {e}", 0)
-            finally:
-                routing.random = saved
+            _, rep = scripted_genid(routing, b, r["prefix"], r["r"])
+            bad = (("Bucket.generate_id:raises", "generate_id raised", 0) if rep == "raised" else
+                   None if len(rep) == W and rep.startswith(r["prefix"]) else
+                   ("Bucket.generate_id:outside-bucket", f"id {rep}", 0))
         if bad is not None:
             print(f"replay: property FAILS: {bad[0]}: {bad[1]} (draw {bad[2]})")
             ctx.oracle_fail(bad[0], bad[1], r)
         else:
             print("replay: property holds on this input")
-        ctx.case(("replay",), True)
+        case(ctx, ("replay",), True)
     elif r.get("kind") == "trie":
         from ipv8.dht.trie import Trie
         t = Trie("01")
@@ -1125,6 +1299,6 @@ def replay(ctx: Ctx, rec: dict):
         n0 = len(ctx.failures)
         trie_oracle(ctx, t, ref, "replay", r)
         print("replay: property", "FAILS" if len(ctx.failures) > n0 else "holds on this input")
-        ctx.case(("replay",), True)
+        case(ctx, ("replay",), True)
     else:
         print("replay: record carries no re-runnable input (kind=%s)" % r.get("kind"))
